@@ -279,11 +279,14 @@ pub struct FaultyWriter {
     pub vectored: bool,
     pub fired: BTreeMap<&'static str, u64>,
     pub flush_err: bool,
+    /// more write calls than this for one entry = the formatter is not making progress
+    pub call_budget: usize,
+    pub stalled: bool,
 }
 
 impl FaultyWriter {
     pub fn perfect() -> Self {
-        FaultyWriter { received: vec![], calls: 0, chunk: 0, at_call: BTreeMap::new(), short_at_offset: None, vectored: true, fired: BTreeMap::new(), flush_err: false }
+        FaultyWriter { received: vec![], calls: 0, chunk: 0, at_call: BTreeMap::new(), short_at_offset: None, vectored: true, fired: BTreeMap::new(), flush_err: false, call_budget: 50_000_000, stalled: false }
     }
     fn fire(&mut self, k: &'static str) {
         *self.fired.entry(k).or_insert(0) += 1;
@@ -291,6 +294,10 @@ impl FaultyWriter {
     fn step(&mut self, bufs: &[&[u8]]) -> io::Result<usize> {
         let idx = self.calls;
         self.calls += 1;
+        if self.calls > self.call_budget {
+            self.stalled = true;
+            return Err(io::Error::other("harness: write-call budget exhausted"));
+        }
         let total: usize = bufs.iter().map(|b| b.len()).sum();
         let mut allow = total;
         match self.at_call.get(&idx).cloned().unwrap_or(WFault::None) {
@@ -442,6 +449,46 @@ fn fmt_once(emf: &mut Emf, sampled: Option<(f32, u64)>, entry: &GenEntry, out: &
     }
 }
 
+/// The writer handed to the format -> stream glue: every call goes to whatever FaultyWriter is in
+/// the cell at that moment (so the harness can swap in a perfect writer for the follow-up entry).
+pub struct CellW<'c>(pub &'c std::cell::RefCell<FaultyWriter>);
+impl io::Write for CellW<'_> {
+    fn write(&mut self, buf: &[u8]) -> io::Result<usize> {
+        self.0.borrow_mut().write(buf)
+    }
+    fn write_vectored(&mut self, bufs: &[io::IoSlice<'_>]) -> io::Result<usize> {
+        self.0.borrow_mut().write_vectored(bufs)
+    }
+    fn flush(&mut self) -> io::Result<()> {
+        self.0.borrow_mut().flush()
+    }
+}
+
+/// How the formatter is bound to its output: called directly, through `FormatExt::output_to`
+/// (one long-lived writer) or through `FormatExt::output_to_makewriter` (a writer per entry).
+enum Glue<'c> {
+    Direct(Emf),
+    OutputTo(metrique_writer::format::FormattedEntryIoStream<Emf, CellW<'c>>),
+    MakeWriter(metrique_writer::format::FormattedMakeWriterEntryIoStream<Emf, Box<dyn Fn() -> CellW<'c> + 'c>>),
+}
+
+impl<'c> Glue<'c> {
+    fn new(kind: &str, emf: Emf, cell: &'c std::cell::RefCell<FaultyWriter>) -> Glue<'c> {
+        match kind {
+            "output_to" => Glue::OutputTo(emf.output_to(CellW(cell))),
+            "makewriter" => Glue::MakeWriter(emf.output_to_makewriter(Box::new(move || CellW(cell)) as Box<dyn Fn() -> CellW<'c> + 'c>)),
+            _ => Glue::Direct(emf),
+        }
+    }
+    fn call(&mut self, sampled: Option<(f32, u64)>, entry: &GenEntry, cell: &std::cell::RefCell<FaultyWriter>) -> Result<(), IoStreamError> {
+        match self {
+            Glue::Direct(emf) => fmt_once(emf, sampled, entry, &mut CellW(cell)),
+            Glue::OutputTo(st) => st.next(entry),
+            Glue::MakeWriter(st) => st.next(entry),
+        }
+    }
+}
+
 // ------------------------------------------------------------------------------------------
 // C16 (a): fault enumeration at formatter level
 // ------------------------------------------------------------------------------------------
@@ -451,6 +498,9 @@ const HARD_KINDS: [io::ErrorKind; 3] = [io::ErrorKind::BrokenPipe, io::ErrorKind
 pub struct EmfWriterFaults;
 
 fn check_faulty(expect: &[u8], w: &FaultyWriter, r: &Result<(), IoStreamError>, what: &str) -> Option<Violation> {
+    if w.stalled {
+        return Some(Violation::new("formatter_stalls", format!("{what}: after {} write calls for a record of {} bytes the formatter was still writing ({} bytes handed over so far): it repeats or never finishes", w.calls, expect.len(), w.received.len())));
+    }
     match r {
         Ok(()) => {
             if w.received != expect {
@@ -489,7 +539,7 @@ impl Scenario for EmfWriterFaults {
         let cfg = gen_config(rng);
         let entry = gen_entry(rng, &cfg, false, false);
         let rate = if jb(&cfg, "sampled", false) { json!([*rng.pick(&[1.0, 0.5, 0.3, 0.01]), rng.next_u64()]) } else { J::Null };
-        json!({"sched": {"seed": rng.next_u64() >> 1}, "config": cfg, "entry": entry, "sample": rate, "random_mixtures": 8, "mix_seed": rng.next_u64() >> 1})
+        json!({"sched": {"seed": rng.next_u64() >> 1}, "config": cfg, "entry": entry, "sample": rate, "random_mixtures": 8, "mix_seed": rng.next_u64() >> 1, "glue": *rng.pick(&["direct", "direct", "output_to", "makewriter"])})
     }
     fn run(&self, plan: &J) -> Report {
         let mut r = Report::default();
@@ -531,10 +581,16 @@ impl Scenario for EmfWriterFaults {
         if ja(cfg, "namespaces").len() > 1 {
             r.probe("multi_namespace", 1);
         }
+        let glue_kind = if sampled.is_some() { "direct" } else { js(plan, "glue", "direct") };
+        r.probe(&format!("glue_{glue_kind}"), 1);
         let mut run_case = |w: FaultyWriter, what: String, r: &mut Report| -> bool {
-            let mut f = base.clone();
             let mut w = w;
-            let res = fmt_once(&mut f, sampled, &entry, &mut w);
+            // a formatter that makes progress needs at most one call per byte plus the injected faults
+            w.call_budget = 4 * expect.len() + 1024;
+            let cell = std::cell::RefCell::new(w);
+            let mut f = Glue::new(glue_kind, base.clone(), &cell);
+            let res = f.call(sampled, &entry, &cell);
+            let w = cell.replace(FaultyWriter::perfect());
             cases += 1;
             for (k, v) in &w.fired {
                 r.fault(k, *v);
@@ -547,8 +603,8 @@ impl Scenario for EmfWriterFaults {
             // "... for that entry only": after a failed call the same formatter must produce the
             // exact records for the next entry
             if res.is_err() {
-                let mut pw = FaultyWriter::perfect();
-                let again = fmt_once(&mut f, sampled, &entry, &mut pw);
+                let again = f.call(sampled, &entry, &cell);
+                let pw = cell.replace(FaultyWriter::perfect());
                 if again.is_err() || pw.received != expect {
                     r.violation = Some(Violation::new(
                         "io_error_affects_next_entry",
@@ -675,7 +731,7 @@ impl Scenario for EmfWriterFaults {
         r
     }
     fn probes(&self) -> Vec<&'static str> {
-        vec!["multi_line_record", "single_line_record", "multi_namespace", "fault_scripts_enumerated"]
+        vec!["multi_line_record", "single_line_record", "multi_namespace", "fault_scripts_enumerated", "glue_direct", "glue_output_to", "glue_makewriter"]
     }
     fn components(&self) -> J {
         json!({"real": ["Emf / EmfBuilder / SampledEmf", "EntryWriter::finish", "buf::write_all_vectored / advance_slices", "PrefixedStringBuf"], "simulated_seams": ["io::Write (fault-scripted)", "RngCore (constant)", "hash-map hasher (seeded)"], "harness": ["generated entries", "FaultyWriter"], "stub": []})
